@@ -50,6 +50,9 @@ impl C19 {
     }
     fn judge(&self, cx: &mut Cx, r: Result<(), PanicInfo>, what: impl Fn() -> String) {
         cx.validated();
+        if let Err(p) = &r {
+            cx.panic_seen(p, || json!({"calls": what()}));
+        }
         match r {
             Ok(()) => {}
             Err(p) if p.msg.starts_with("verif:") => {
